@@ -2575,6 +2575,7 @@ impl<'a, const HAS_CR: bool> Parser<'a, HAS_CR> {
         self.record_key_properties()?;
 
         // Parse the key
+        let quoted_key = matches!(self.peek(), Some(b'"' | b'\''));
         let key_end = match self.peek() {
             Some(b'"') => {
                 self.parse_double_quoted()?;
@@ -2592,6 +2593,17 @@ impl<'a, const HAS_CR: bool> Parser<'a, HAS_CR> {
 
         // Close key node
         self.write_bp_close();
+
+        // Skip optional whitespace between a quoted key and its colon
+        // (`- "key" : value`), as `parse_mapping_entry` does:
+        // `looks_like_mapping_entry` allows for it, so the entry got this far
+        // only to be rejected just below. (A plain key's scan already stops at
+        // the colon itself, trailing white space trimmed. An alias key,
+        // `- *a : v`, is still rejected below: `yq_cli_tests` relies on that
+        // input to reach this error.)
+        if quoted_key {
+            self.skip_inline_whitespace();
+        }
 
         // Expect colon
         if self.peek() != Some(b':') {
@@ -6595,6 +6607,25 @@ mod tests {
             result.is_ok(),
             "compact mapping in sequence should parse: {result:?}"
         );
+    }
+
+    /// `- "a" : 1`: white space may separate a key from its `:`. The
+    /// look-ahead that picks the compact-mapping path allows it after a
+    /// quoted key, so the entry parser has to skip it as well.
+    #[test]
+    fn compact_mapping_quoted_key_may_be_separated_from_its_colon() {
+        for (yaml, expected) in [
+            (&b"- \"a\" : 1\n"[..], "[{\"a\":1}]"),
+            (b"- 'a'  : 1\n  b: 2\n", "[{\"a\":1,\"b\":2}]"),
+        ] {
+            let index = crate::yaml::YamlIndex::build(yaml).expect("should parse");
+            assert_eq!(
+                index.root(yaml).to_json_document(),
+                expected,
+                "input: {:?}",
+                core::str::from_utf8(yaml)
+            );
+        }
     }
 
     #[test]
